@@ -23,6 +23,9 @@ if [ "$1" = "C10" ] || { [ "$1" = "replay" ] && grep -q '"property": *"C10"' "$2
   fi
   BINARY="$BUILD/rdmsched"
 fi
+if [ "$1" = "C20" ] && [ "${2:-quick}" = "thorough" ]; then
+  build_server > "$BUILD/build_server.log" 2>&1 || { cat "$BUILD/build_server.log" >&2; echo "service binary build failed" >&2; exit 2; }
+fi
 flock -u 9
 if [ "$1" = "replay" ]; then
   exec "$BINARY" replay "$2"
